@@ -118,8 +118,13 @@ fn cuts_of(m: &[u8], st: &mut Stats) -> TestResult {
         {
             let whole = guard(|| Message::from_bytes(m).map(|_| ())).map_err(|p| Fail::new("c17-panic", p))?;
             if whole.is_err() {
-                st.class("whole message refused (C02/C03's business)");
-                return Ok(());
+                // whether the complete message is accepted is C02's / C03's statement; what its strict
+                // prefixes are called is this one's, as long as the message is well-formed
+                if !matches!(refstun::parse(m), refstun::RefParse::Accept(_)) {
+                    st.class("not a well-formed message (skipped)");
+                    return Ok(());
+                }
+                st.class("whole message refused by the library (C02's business); its prefixes are judged all the same");
             }
             header_relation(m, st)?;
             let (attrs, _) = refstun::walk(m, m.len());
